@@ -51,6 +51,18 @@ try:
         if not passed:
             still.append(f)
     res["flaky_when_rerun_alone"] = [f for f in ok_fail if f not in still]
+    # a test that also fails alone on the CLEAN tree (patch reverted) under the current machine load
+    # is not a failure caused by the patch (TestDB_DelayedCheckpointAfterWrite under load)
+    if still:
+        sh("git apply -R seed_out/patch.diff")
+        clean_fail = []
+        for f in still:
+            rcx, outx = sh("go test -vet=off -count=1 -run '^%s$' %s" % (f, " ".join(pk)))
+            if rcx != 0:
+                clean_fail.append(f)
+        sh("git apply seed_out/patch.diff")
+        res["fails_on_clean_tree_too"] = clean_fail
+        still = [f for f in still if f not in clean_fail]
     ok_fail = still
     res["confirmed"] = bool(rc0 == 0 and res["patch_applies"] and res["builds"] and rc1 != 0 and not ok_fail)
 finally:
